@@ -1115,6 +1115,11 @@ O(id="C16.strcasecmp_leaf", entry="harness_strcasecmp", unwind=7, reach=["equal_
 O(id="C16.strcasestr_leaf", entry="harness_strcasestr", unwind=7, reach=["found_behind_partial_match"], functions=["jet_strcasestr"],
   symbolic="haystack and needle of 0..4 arbitrary non-NUL bytes each", bounds="strings <= 4 bytes (covers a needle with a repeated prefix behind one more repetition: 'aab' in 'aaab')", **_c16s)
 
+O(id="C16.strcasecmp_leaf_len8", entry="harness_strcasecmp", unwind=11, defines=["SL=8"], reach=["equal_by_folding"], functions=["jet_strcasecmp", "jet_strncasecmp"],
+  symbolic="two strings of 0..8 arbitrary non-NUL bytes each, n in 0..9", bounds="strings <= 8 bytes", **_c16s)
+O(id="C16.strcasestr_leaf_len8", entry="harness_strcasestr", unwind=11, defines=["SL=8"], reach=["found_behind_partial_match"], functions=["jet_strcasestr"],
+  symbolic="haystack and needle of 0..8 arbitrary non-NUL bytes each", bounds="strings <= 8 bytes", **_c16s)
+
 # ------------------------------------------------------------------------------------------------ round 6 (groups A, B) strengthening
 O(id="C01.history_own_fetch", props=["C01", "C04", "C07"], harness="harness/scn_hist.c", entry="harness_history", defines=["HIST=6"],
   functions=["add_element_to_peer", "find_fetchers_for_element", "change_state", "add_fetch_to_peer", "notify_fetchers"],
